@@ -124,6 +124,26 @@ pub fn iteration<S: Src>(s: &mut S) {
     std::mem::forget(map);
 }
 
+/// A removal, an insertion and THEN enumeration, from an arbitrary valid state: an entry written into a slot that an
+/// earlier removal vacated must still be enumerated (state that `get` / `len` do not show but `iter` depends on).
+pub fn ops_then_iteration<S: Src>(s: &mut S) {
+    let (mut map, mut model) = any_state(s);
+    let (k1, k2, v) = (s.usize(), s.usize(), s.u8());
+    s.assume(k1 < N && k2 < N);
+    let _ = map.remove(&k1);
+    model[k1] = None;
+    map.insert(&k2, v);
+    model[k2] = Some(v);
+    let mut seen = 0usize;
+    for (i, x) in map.iter() {
+        assert!(i < N && model[i] == Some(*x), "C19 vector map: after remove + insert iter() yields an entry the model lacks");
+        seen += 1;
+    }
+    s.reached();
+    assert!(seen == count(&model), "C19 vector map: after remove + insert iter() misses or repeats entries");
+    std::mem::forget(map);
+}
+
 /// Growth with concrete keys from the empty map: insert at 0, 3, 1 then overwrite and
 /// remove (values symbolic).
 pub fn grow<S: Src>(s: &mut S) {
